@@ -116,6 +116,64 @@ def crossCorrelationTable (w n : Nat) : Array α := Id.run do
     table := table.set! ilag ((Arith.ofNat sum : α) / Arith.ofNat (nrow * populations))
   return table
 
+/-! ### covariant mode pairs (`covariant.cpp`) -/
+
+/-- `sqrt(Matrix<2,2>)`: `s = sqrt(det); t = sqrt(trace + 2 s); (C + s I)/t`; `clamp` is what is applied
+to the determinant before the root (identity before the repair, `max(·,0)` after) -/
+def sqrt22 (sqrtF : α → α) (clamp : α → α) (c00 c01 c10 c11 : α) : α × α × α × α :=
+  let det := clamp (c00*c11 - c01*c10)
+  let tr := c00 + c11
+  let s := sqrtF det
+  let t := sqrtF (tr + two*s)
+  ((s + c00)/t, (zero + c01)/t, (zero + c10)/t, (s + c11)/t)
+
+structure CovModel (α : Type) where
+  ls0 : α
+  ls1 : α
+  m00 : α
+  m01 : α
+  m10 : α
+  m11 : α
+
+inductive BuildResult (α : Type) where
+  | ok (m : CovModel α) | tooLarge | tooSmall
+
+/-- `bivariate_lognormal_modes::build()`; `ls0, ls1` are the `log_sigma` values set by `set_beta` -/
+def covBuild (expF logF sqrtF : α → α) (gt lt : α → α → Bool) (clamp : α → α) (rho ls0 ls1 : α) : BuildResult α :=
+  let c00 := ls0*ls0
+  let c11 := ls1*ls1
+  let beta0 := sqrtF (expF c00 - one)
+  let beta1 := sqrtF (expF c11 - one)
+  let denom := beta0*beta1
+  let maxC := (expF (ls0*ls1) - one) / denom
+  let minC := (expF ((-ls0)*ls1) - one) / denom
+  if gt rho maxC then .tooLarge
+  else if lt rho minC then .tooSmall
+  else
+    let c01 := logF (rho*beta0*beta1 + one)
+    let (a, b, c, d) := sqrt22 sqrtF clamp c00 c01 c01 c11
+    .ok ⟨ls0, ls1, a, b, c, d⟩
+/-- `get_modulation`: two deviates through the correlator, then `exp(· − ½ σ²)` -/
+def covDraw (expF : α → α) (m : CovModel α) (g0 g1 : α) : α × α :=
+  let a0 := (zero + m.m00*g0) + m.m01*g1
+  let a1 := (zero + m.m10*g0) + m.m11*g1
+  (expF (a0 - half*m.ls0*m.ls0), expF (a1 - half*m.ls1*m.ls1))
+
+/-- the coordinator: pending queues of the two modes and the draws made so far -/
+structure Coord (β : Type) where
+  qA : List β
+  qB : List β
+  draws : List (β × β)
+/-- `covariant_mode::modulation()` for mode `i` (`false` = A, `true` = B); `next` is the joint draw that
+`coordinator->get()` would make now.  Returns the new state, the delivered value, whether a draw was made -/
+def Coord.request {β : Type} (c : Coord β) (isB : Bool) (next : β × β) : Coord β × Option β × Bool :=
+  let needDraw := if isB then c.qB.isEmpty else c.qA.isEmpty
+  let c1 : Coord β := if needDraw then ⟨c.qA ++ [next.1], c.qB ++ [next.2], c.draws ++ [next]⟩ else c
+  if isB then (⟨c1.qA, c1.qB.tail, c1.draws⟩, c1.qB.head?, needDraw)
+  else (⟨c1.qA.tail, c1.qB, c1.draws⟩, c1.qA.head?, needDraw)
+
+def currentSqrt22Clamped : Bool := true
+
 /-- which repairs the current source contains -/
 def currentNSqRepaired : Bool := true
 def currentLag0Repaired : Bool := true
